@@ -139,7 +139,12 @@ def run(tier):
         sub = vlib.run_drive(drive, rjobs, chk.work, name="repro")
         _, bad2, _, _ = vlib.validate_traces(chk.work, mod, mod + ".cfg", [sub], heap=onedim.HEAP[mod], timeout=6000)
         if (len(rjobs), b["why"]) not in {(x["l"], x["why"]) for x in bad2}:
-            raise vlib.Inconclusive("unreproduced rejection: %s" % k)
+            pre = [e for e in evs if mod == "TraceAztec" and e.get("sym") == "aztec" and e["hist"] == ev["hist"] and e["i"] < ev["i"] and e["p"][1] == 0][:1]
+            rp = onedim.reproduce_with_history(chk, drive, evs, ev, b["why"], mod, mod + ".cfg", onedim.HEAP[mod], pre=pre)
+            if rp is None:
+                raise vlib.Inconclusive("unreproduced rejection: %s" % k)
+            chk.report(k + " (history-dependent)", "%s: only after the %d calls made before it in the same process" % (k, len(rp["jobs"]) - 1), rp)
+            continue
         chk.report(k, describe(sub[-1], b["why"]), dict(jobs=rjobs, expect=b["why"], module=mod))
     ok = [e for e in evs if e["res"]["kind"] == "ok"]
     chk.cov["sizes_checked_by_family"] = {s: sum(1 for e in ok if e["sym"] == s) for s in ("qr", "dm", "aztec", "pdf")}
